@@ -317,7 +317,11 @@ pub fn check(c: &Case, known: &Known) -> Outcome {
     out
 }
 
-pub fn replay_any(_c: &str, case: &Value, known: &Known) -> Option<Outcome> {
+pub fn replay_any(name: &str, case: &Value, known: &Known) -> Option<Outcome> {
+    if name == "project-trees" {
+        let c: TreeCase = serde_json::from_value(case.clone()).ok()?;
+        return Some(check_tree(&c, known));
+    }
     let c: Case = serde_json::from_value(case.clone()).ok()?;
     Some(check(&c, known))
 }
@@ -325,8 +329,163 @@ pub fn replay_any(_c: &str, case: &Value, known: &Known) -> Option<Outcome> {
 pub fn run(ctx: &Ctx) -> i32 {
     ctx.run_replays(|c, case| replay_any(c, case, &ctx.known));
     ctx.tape_search("fault-injection", ctx.n(30_000, 1_000_000), 400, gen_case, |c| check(c, &ctx.known));
+    ctx.tape_search("project-trees", ctx.n(2_000, 40_000), 40, gen_tree_case, |c| check_tree(c, &ctx.known));
     ctx.finish(
         "valid generated programs + one injected fault of a known class (lexical: unterminated string, stray ^, unterminated quote; syntactic: dangling operator, missing brace/paren, doubled =; resolution: unknown function / column / named argument; type: text to take, number to filter; SQL generation: regex under generic) + padding before the fault (comment line or string literal) in two versions of equal character length, ASCII and multi-byte. Every returned error must have a non-empty reason; a span must lie inside the source in character offsets with start <= end; location must be the (line, column) of the span; the rendered message must quote that line; span and location must be identical for the two paddings. non-trivial = the error has a span and multi-byte text precedes it; distinct = source text",
-        &["panics are C12's subject (except the known span-out-of-bounds assertion, which is the same root cause as the recorded finding)", "multi-file projects are not generated by this check"],
+        &["panics are C12's subject (except the known span-out-of-bounds assertion, which is the same root cause as the recorded finding)", "multi-file projects: one root and one module file, built through SourceTree::new / default()+insert (both orders) / single"],
     )
+}
+
+// ---------------------------------------------------------------------------------------
+// multi-file projects: the same validity predicate per error, the span being resolved against
+// the file its source id names; the tree is built through each public constructor
+
+#[derive(Clone, Debug, Serialize, Deserialize)]
+pub struct TreeCase {
+    /// 0 = SourceTree::new, 1 = default() + insert(root, module), 2 = default() + insert(module, root),
+    /// 3 = SourceTree::single (root only, module inlined)
+    pub ctor: u8,
+    pub root: String,
+    pub module: String,
+}
+
+const TREE_FAULTS: &[&str] = &[
+    " | filter zzz_col > 1",
+    " | derive {zz = zzz_unknown_fn 1}",
+    " | derive {zz = 1 +}",
+    " | take \"a\"",
+    " | filter 1 + 2 | take 3 4",
+    " | append 5",
+    " | take 1..2..3",
+    " | derive {zz = 'abc}",
+    " | select {zz = 1 ^ 2}",
+    "",
+];
+
+pub fn gen_tree_case(t: &mut Tape) -> TreeCase {
+    let pad = |t: &mut Tape| -> String {
+        let n = t.choose(4);
+        (0..n).map(|i| format!("# line {i} of padding\n")).collect()
+    };
+    let mut root = format!("{}from m1.tbl | select {{id, a}}", pad(t));
+    let mut module = format!("{}let tbl = (from t1 | select {{id, a, b}})", pad(t));
+    let fault = *t.pick(TREE_FAULTS);
+    if t.chance(2, 3) {
+        root.push_str(fault);
+    } else {
+        module = module.replacen("select {id, a, b})", &format!("select {{id, a, b}}{fault})"), 1);
+    }
+    root.push('\n');
+    module.push('\n');
+    TreeCase { ctor: t.choose(4) as u8, root, module }
+}
+
+pub fn check_tree(c: &TreeCase, known: &Known) -> Outcome {
+    use std::path::PathBuf;
+    let mut out = Outcome::pass();
+    out.key = hash_of(&(c.ctor, &c.root, &c.module));
+    out.classes.push(format!("tree_ctor={}", c.ctor));
+    let root_path = PathBuf::from("Project.prql");
+    let mod_path = PathBuf::from("m1.prql");
+    let tree = match c.ctor {
+        0 => prqlc::SourceTree::new(vec![(root_path.clone(), c.root.clone()), (mod_path.clone(), c.module.clone())], None),
+        1 => {
+            let mut t = prqlc::SourceTree::default();
+            t.insert(root_path.clone(), c.root.clone());
+            t.insert(mod_path.clone(), c.module.clone());
+            t
+        }
+        2 => {
+            let mut t = prqlc::SourceTree::default();
+            t.insert(mod_path.clone(), c.module.clone());
+            t.insert(root_path.clone(), c.root.clone());
+            t
+        }
+        _ => {
+            // one file: the module's declaration in front of the root pipeline
+            let body = c.module.replace("let tbl", "module m1 {\nlet tbl");
+            prqlc::SourceTree::single(root_path.clone(), format!("{body}}}\n{}", c.root))
+        }
+    };
+    let o = crate::util::opts(None);
+    let r = match catch(|| {
+        prqlc::prql_to_pl_tree(&tree)
+            .and_then(|pl| prqlc::pl_to_rq_tree(pl, &[], &[]))
+            .and_then(|rq| prqlc::rq_to_sql(rq, &o))
+            .map_err(|e| e.composed(&tree))
+    }) {
+        Err(p) => {
+            if p.file.ends_with("error_message.rs") {
+                return Outcome::fail(
+                    "composing the error message of a project panics (span outside the file it names)",
+                    json!({"ctor": c.ctor, "root": c.root, "module": c.module, "panic": p.message}),
+                );
+            }
+            return Outcome::skip(&format!("compiler_panic {}:{}", p.file, p.line)).class("compiler_panic");
+        }
+        Ok(r) => r,
+    };
+    let Err(errs) = r else {
+        out.classes.push("project_compiles".into());
+        return out;
+    };
+    if errs.inner.is_empty() {
+        return Outcome::fail("compile fails with an empty error list", json!({"root": c.root, "module": c.module}));
+    }
+    for m in &errs.inner {
+        if m.reason.trim().is_empty() {
+            return Outcome::fail("error with an empty reason", json!({"root": c.root, "module": c.module}));
+        }
+        let Some(sp) = m.span else { continue };
+        // the file the span was resolved against is the one the rendered message names
+        // (`[ Project.prql:2:30 ]`); no rendered message = no file of the tree has that source id
+        let named = m.display.as_ref().and_then(|d| {
+            regex::Regex::new(r"\[ ?([^\]:]*):\d+:\d+ ?\]").ok()?.captures(d).map(|c| PathBuf::from(c[1].trim()))
+        });
+        let Some(path) = named.as_ref().filter(|p| tree.sources.contains_key(*p)) else {
+            // a span that names no file of the tree (the embedded std library): recorded finding
+            let mut o = Outcome::fail(
+                "error span names a source that is not a file of the source tree",
+                json!({"ctor": c.ctor, "root": c.root, "module": c.module, "reason": m.reason, "span": format!("{sp:?}")}),
+            );
+            if known.is_open(F_FOREIGN) {
+                o.verdict = Verdict::Known(F_FOREIGN.into(), format!("{} (project)", m.reason.chars().take(60).collect::<String>()));
+            }
+            return o;
+        };
+        let src = tree.sources.get(path).cloned().unwrap_or_default();
+        let nchars = src.chars().count();
+        let detail = |what: &str| json!({"ctor": c.ctor, "file": path, "root": c.root, "module": c.module, "reason": m.reason, "span": [sp.start, sp.end], "what": what});
+        if sp.start > sp.end || sp.end > nchars {
+            return Outcome::fail("span is not inside the file its source id names", detail("bounds"));
+        }
+        let Some(l) = &m.location else {
+            return Outcome::fail("error has a span but no location", detail("location"));
+        };
+        let (es, ee) = (line_col(&src, sp.start), line_col(&src, sp.end));
+        let eof_ok = |off: usize, want: (usize, usize), got: (usize, usize)| off == nchars && src.ends_with('\n') && want.1 == 0 && want.0 > 0 && got.0 == want.0 - 1;
+        if !(l.start == es || eof_ok(sp.start, es, l.start)) || !(l.end == ee || eof_ok(sp.end, ee, l.end)) {
+            return Outcome::fail("reported line/column is not the position of the span in its file", detail("line/column"));
+        }
+        if let Some(d) = &m.display {
+            let line = src.split('\n').nth(es.0).unwrap_or("").trim_end_matches('\r');
+            if !line.trim().is_empty() && !d.contains(line.trim_end()) {
+                return Outcome::fail("rendered message does not quote the line containing the span", detail("display"));
+            }
+        } else {
+            return Outcome::fail("error has a span but no rendered message", detail("display"));
+        }
+        // an `Unknown name` error points at the name
+        for name in ["zzz_col", "zzz_unknown_fn"] {
+            if m.reason.contains(name) && m.reason.starts_with("Unknown name") && src.matches(name).count() == 1 {
+                let text: String = src.chars().skip(sp.start).take(sp.end - sp.start).collect();
+                if !text.contains(name) {
+                    return Outcome::fail("the span of an `Unknown name` error does not cover the name", detail(&text));
+                }
+            }
+        }
+    }
+    out.nontrivial = errs.inner.iter().any(|m| m.span.is_some());
+    out.sample = Some(json!({"ctor": c.ctor, "root": c.root, "module": c.module, "errors": errs.inner.iter().map(|m| json!({"reason": m.reason, "span": m.span.map(|s| format!("{s:?}"))})).collect::<Vec<_>>()}));
+    out
 }
